@@ -44,9 +44,13 @@ type lineJ struct {
 type caseJ struct {
 	Kind      string   `json:"kind"` // bb_batch | lib_batch
 	Precision string   `json:"precision"`
+	Prefix    string   `json:"prefix"` // every measurement name of the case starts with it
 	Lines     []lineJ  `json:"lines"`
 	Body      string   `json:"body"`            // the text sent: the lines with their terminators, blank lines and comments
 	Extra     []string `json:"extra,omitempty"` // measurement names that must NOT exist afterwards (own names of broken lines)
+	// Strict: also judge the acknowledgement when a broken line is followed by another line (the generated campaigns
+	// leave that judgement out: known finding C06-broken-line-silently-dropped; its replay sets it)
+	Strict bool `json:"strict,omitempty"`
 }
 
 func (c *caseJ) broken() (n int, last bool) {
